@@ -6,6 +6,8 @@ open Tinode.Preview Tinode.Wire
 def model (ws : List String) : Option String :=
   match ws with
   | ["push.preview", x] => (decBytes x).map (fun bs => encBytes (preview bs))
+  -- a formatted document: the model's only claim is that a preview is made (or refused) - the process goes on
+  | ["push.drafty", x] => (decBytes x).map (fun _ => "ok")
   | _ => none
 
 /-- the preview never exceeds 128 runes plus the ellipsis, and is the input itself unless the input was longer than that -/
@@ -19,6 +21,8 @@ def verdict (ws : List String) (out : List String) : Option Bool :=
       let n := (decode bs).length
       pure ((decode o).length ≤ maxLen + 1 && (n > maxLen || o == bs))
   | ["push.preview", _], _ => pure false
+  | ["push.drafty", _], [y] => pure (y == "ok" || y == "notjson")
+  | ["push.drafty", _], _ => pure false
   | _, _ => none
 
 end Tinode.Driver.Preview
